@@ -110,6 +110,10 @@ def rel_C17(ln, prev):
     return ln['op'] in {'Dump', 'Load', 'Fork'}
 
 
+def rel_C18(ln, prev):
+    return str(ln.get('api', '')).startswith('generic.') and _ok(ln)
+
+
 def rel_C20(ln, prev):
     return ln['op'] in {'ResAdd', 'ResRemove', 'ResGet'} or (len(ln.get('obs', {}).get('res', [])) > 0 and ln['op'] in STRUCT_OPS)
 
@@ -131,7 +135,7 @@ def world_check(ctx, relevant, profiles, mcs=(), scenarios=(), level='model_chec
     for s in scenarios:
         pairs.append((run_schedules(ctx, s, tags=tags, label=os.path.basename(s)), s))
     ctx.log('recorded %d trace files' % len(pairs))
-    results = parallel(lambda p: validate(ctx, p[0], cfg=trace_cfg), pairs)
+    results = parallel(lambda p: validate(ctx, p[0], cfg=trace_cfg, strict='E17' in os.path.basename(p[1])), pairs)
     xv = []
     if extra:
         extra_cov = dict(extra_cov or {})
@@ -173,7 +177,7 @@ def finish(ctx, relevant, pairs, results, mc, level, assumptions, extra_cov=None
                 continue
             k = schedule_of_line(lines, v['line'])
             sname = [l for l in lines if l['op'] == 'NewWorld'][k]['args']['name']
-            match = [f for f in known if f['match'].get('scenario') == sname and f['match'].get('check') == v['check']]
+            match = [f for f in known if f['match'].get('scenario') == sname and v['check'] in f['match'].get('checks', [])]
             if match:
                 kf.append((match[0], v))
             else:
@@ -495,11 +499,11 @@ def c04(ctx):
 PROPS = {
     'C01': W(rel_C01, [('base', 120, 1500), ('spread', 80, 1000)]),
     'C02': W(rel_C02, [('base', 100, 1500), ('churn', 100, 1000)], pool=True),
-    'C03': W(rel_C03, [('base', 100, 1500), ('query', 100, 1000)]),
+    'C03': W(rel_C03, [('base', 100, 1500), ('query', 100, 1000)], scenarios=[os.path.join(SCEN, 'E17-open-relation-filter.ndjson')]),
     'C04': c04,
     'C05': W(rel_C05, [('base', 100, 1500), ('relations', 100, 1000)]),
     'C06': W(rel_C06, [('base', 60, 1000), ('relations', 140, 1500)]),
-    'C07': W(rel_C07, [('base', 60, 1000), ('cache', 140, 1500)], locks=True),
+    'C07': W(rel_C07, [('base', 60, 1000), ('cache', 140, 1500)], locks=True, scenarios=[os.path.join(SCEN, 'E17-open-relation-filter.ndjson')]),
     'C08': W(rel_C08, [('base', 60, 1000), ('batch', 140, 1500)]),
     'C09': W(rel_C09, [('base', 60, 1000), ('locks', 140, 1500)], locks=True, extra=locks_part),
     'C10': W(rel_C10, [('base', 60, 1000), ('faults', 140, 1500)]),
@@ -510,5 +514,8 @@ PROPS = {
     'C13': c13,
     'C15': W(rel_C15, [('resettwin', 160, 2000), ('reset', 40, 500)], pool=True),
     'C17': lambda ctx: world_check(ctx, rel_C17, [('loadtwin', 200, 2500)], mcs=mc_pool(ctx), assumptions=A_WORLD),
+    'C18': lambda ctx: world_check(ctx, rel_C18, [('generic', 200, 2500)], assumptions=A_WORLD,
+                                   mcs=[('MCGeneric.tla', 'MCGeneric.cfg', dict(timeout=900))] + mc_abs(ctx),
+                                   scenarios=[os.path.join(SCEN, 'D8-generic-query-target-aliasing.ndjson')]),
     'C20': W(rel_C20, [('base', 60, 1000), ('resources', 140, 1500)]),
 }
